@@ -616,6 +616,8 @@ def symbolic_comprehension(it, st, node, gen, src: VSeq, flavour: str) -> V:
                 z3.And(z3.Contains(src.t, z3.Unit(r[0])), z3.substitute(Pz, (x, r[0]))),
             )
         )
+        # a filter is empty exactly when no element satisfies the predicate (definition)
+        facts.append((z3.Length(r) == 0) == z3.Not(exists_in(src.t, x, Pz)))
     elif z3.is_true(z3.simplify(Pz)):
         facts.append(z3.Length(r) == z3.Length(src.t))
     for f in facts:
@@ -998,6 +1000,14 @@ def call_builtin_method(it, st, recv: V, name: str, args, kwargs, node) -> V:
             enc = const_str(args[0].t) if args else "utf-8"
             if enc not in ("ascii", "utf-8"):
                 raise Unsupported(f"decode({enc})")
+            lenient = "errors" in kwargs or len(args) > 1
+            if enc == "ascii" and not lenient:
+                ok = z3.Function("is_ascii_bytes", BytesS, BoolS)(recv.t)
+                lit = const_bytes(recv.t)
+                if lit is not None:
+                    ok = all(b < 128 for b in lit)
+                if not eng.branch(st, ok, f"decodes-as-ascii@{node.lineno}"):
+                    eng.raise_(st, "UnicodeDecodeError", tag={"site": it.site(node)})
             # instance of the ASCII round-trip law for this term (decoding is injective)
             eng.assume(st, encode_ascii(decode_ascii(recv.t)) == recv.t)
             return VStr(decode_ascii(recv.t))
@@ -1051,7 +1061,7 @@ def call_builtin_method(it, st, recv: V, name: str, args, kwargs, node) -> V:
             dv = eng.to_val(st, d)
             return VVal(dget(recv.t, k.t, dv.t))
         if name == "decode":
-            return VStr(decode_ascii(bytes_of_val(recv.t)))
+            return call_builtin_method(it, st, VBytes(bytes_of_val(recv.t)), name, args, kwargs, node)
         if name == "lower":
             return VBytes(lower_b(bytes_of_val(recv.t)))
         h = eng.reg.__dict__.get("val_methods", {}).get(name)
@@ -1076,6 +1086,10 @@ def call_builtin_method(it, st, recv: V, name: str, args, kwargs, node) -> V:
             return args[1] if len(args) > 1 else NONE
         if name == "items":
             return VList([VTuple([_key_value(k), v]) for k, v in recv.items.items()])
+        if name == "values":
+            return VList(list(recv.items.values()))
+        if name == "keys":
+            return VList([_key_value(k) for k in recv.items])
     if isinstance(recv, VHeapDict):
         if name == "get":
             k = eng.coerce(st, args[0], recv.kk)
